@@ -41,7 +41,56 @@ def _const(v):
     return f
 
 
+def _assumed(E, what):
+    E.lib_used.add(what)
+
+
+def sys_exc_info(E, args, kwargs, node):
+    if not E.handling_stack:
+        return VT([NONE, NONE, NONE])
+    exc = E.handling_stack[-1]
+    from .builtins_ import bi_type
+    return VT([bi_type(E, [exc], {}, node), exc, E.fresh_opaque('tb')])
+
+
+def stringio_new(E, args, kwargs, node):
+    _assumed(E, 'io.StringIO(), .getvalue(), traceback.print_exc(): do not raise')
+    return E.alloc(HObj(None, {}, name='pyobj:StringIO'))
+
+
+def stringio_getvalue(E, args, kwargs, node):
+    return VS(z3.String(E.fresh('sio')))
+
+
+def print_exc(E, args, kwargs, node):
+    _assumed(E, 'io.StringIO(), .getvalue(), traceback.print_exc(): do not raise')
+    return NONE
+
+
+def convert_exception_type(E, args, kwargs, node):
+    _assumed(E, 'zExceptions.convertExceptionType(name): returns an exception class or None, does not raise')
+    f = z3.Function('convertExceptionType', Val, Val)
+    return VO_term(f(E.to_val(args[0])), E.fresh('exctype'))
+
+
+def upgrade_exception(E, args, kwargs, node):
+    _assumed(E, 'zExceptions.upgradeException(t, v): returns a pair (class, value), does not raise; '
+                'for a class t returns (t, v) unchanged')
+    t, v = args
+    if isinstance(t, (VBI, VCls)):
+        return VT([t, v])
+    f = z3.Function('upgradeException_t', Val, Val)
+    g = z3.Function('upgradeException_v', Val, Val, Val)
+    return VT([VO_term(f(E.to_val(t)), E.fresh('uet')), VO_term(g(E.to_val(t), E.to_val(v)), E.fresh('uev'))])
+
+
 TABLE = {
+    'sys.exc_info': sys_exc_info,
+    'io.StringIO': stringio_new,
+    'io.StringIO.getvalue': stringio_getvalue,
+    'traceback.print_exc': print_exc,
+    'zExceptions.convertExceptionType': convert_exception_type,
+    'zExceptions.upgradeException': upgrade_exception,
     're.compile': re_compile,
     're.I': None,
 }
